@@ -32,6 +32,7 @@ const longOutput = "begin-0123456789\nend-0123456789\n"
 // Know is what the client side knows about one unit: exactly the inputs of the Durable policy.
 type Know struct {
 	ID          string `json:"id"`
+	Node        string `json:"node,omitempty"` // "" = localhost; else the node that executes the unit
 	Acked       bool   `json:"acked"`
 	SubmitDone  bool   `json:"submit_done"` // the final JSON answer of submit was received
 	Expected    string `json:"-"`
@@ -50,6 +51,7 @@ type step struct {
 }
 
 type workload struct {
+	remote bool // submitted on n1 for execution on a second daemon n2
 	name   string
 	script string
 	output string
@@ -78,7 +80,11 @@ func submit(d *daemon.Daemon, k *Know, script string, log func(string, string)) 
 		return false
 	}
 	defer c.Close()
-	sr, err := c.Submit("localhost", "sh", "", []byte(script), 60*time.Second, func(id string) {
+	node := k.Node
+	if node == "" {
+		node = "localhost"
+	}
+	sr, err := c.Submit(node, "sh", "", []byte(script), 60*time.Second, func(id string) {
 		k.ID, k.Acked = id, true
 		log("acked", id)
 	})
@@ -167,6 +173,25 @@ var workloads = []workload{
 			waitState(d, k, func(s int64) bool { return s >= 2 }, 20*time.Second, log)
 		}
 	}},
+	{name: "remote", remote: true, script: quickScript, output: quickOutput, run: func(d *daemon.Daemon, k *Know, log func(string, string)) {
+		k.Node = "n2"
+		if !submit(d, k, quickScript, log) {
+			return
+		}
+		if !waitState(d, k, func(s int64) bool { return s >= 2 }, 90*time.Second, log) {
+			return
+		}
+		c, err := d.Dial(10 * time.Second)
+		if err != nil {
+			return
+		}
+		defer c.Close()
+		_, data, closed, _ := c.Results(k.ID, 0, 30*time.Second)
+		if closed && string(data) == quickOutput {
+			k.GotResults = true
+			log("results", fmt.Sprintf("%d bytes", len(data)))
+		}
+	}},
 	{name: "release", script: quickScript, output: quickOutput, run: func(d *daemon.Daemon, k *Know, log func(string, string)) {
 		if !submit(d, k, quickScript, log) {
 			return
@@ -213,6 +238,8 @@ type outcome struct {
 	Class      string      `json:"class"` // crash window per the policy table
 	Dir        string      `json:"dir"`
 }
+
+func removeAll(dir string) error { return os.RemoveAll(dir) }
 
 func findWorkload(name string) *workload {
 	for i := range workloads {
@@ -276,10 +303,27 @@ func experiment(bin, base string, cp crashPoint, idx int) *outcome {
 	if cp.Name != "" {
 		env = []string{fmt.Sprintf("VERIF_CRASH_AT=%s#%d", cp.Name, cp.K), "VERIF_CRASH_WHO=" + cp.Role}
 	}
+	if w.remote {
+		n2, err := startExecutor(bin, dir, d)
+		if n2 != nil {
+			defer n2.Cleanup()
+		}
+		if err != nil {
+			o.Inconcl = append(o.Inconcl, err.Error())
+
+			return o
+		}
+	}
 	if err := d.Start(60*time.Second, env...); err != nil {
 		o.Inconcl = append(o.Inconcl, "start: "+err.Error())
 
 		return o
+	}
+	if w.remote && !waitRoute(d, "n2", 60*time.Second) {
+		if d.Alive() {
+			o.Inconcl = append(o.Inconcl, "n1 has no route to n2 after 60 s")
+		}
+		// a crash point hit during start-up: the workload below simply finds the daemon gone
 	}
 	firstPid := d.Pid()
 	done := make(chan struct{})
@@ -344,6 +388,21 @@ func experiment(bin, base string, cp crashPoint, idx int) *outcome {
 	default:
 		o.Class = "runner-alive"
 	}
+	var preDisk map[string]any
+	if w.remote && k.Acked {
+		preDisk = readStatusFile(d, k.ID)
+		_, _, started := remoteBinding(preDisk)
+		switch {
+		case k.ToldState == 2 || k.ToldState == 3:
+			o.Class = "already-final"
+		case preDisk != nil && started:
+			o.Class = "remote-started"
+		case preDisk != nil:
+			o.Class = "acked-not-started"
+		default:
+			o.Class = "remote-record-unreadable"
+		}
+	}
 	// ---- restart on the same directory (the runner role leaves the daemon alive: kill it too = "also restarted")
 	if cp.Role == "runner" {
 		time.Sleep(300 * time.Millisecond) // let the daemon notice its child's death first (one more interleaving point)
@@ -382,6 +441,9 @@ func experiment(bin, base string, cp crashPoint, idx int) *outcome {
 	}
 	after := map[string]any{}
 	o.After = after
+	if w.remote {
+		waitRoute(d, "n2", 60*time.Second)
+	}
 	// ---- no query blocks: work list
 	lr, err := simpleCmd(d, "work list", 20*time.Second)
 	if err != nil {
@@ -456,7 +518,11 @@ func experiment(bin, base string, cp crashPoint, idx int) *outcome {
 
 		return o
 	}
-	if wt := daemon.Str(ent, "WorkType"); wt != "sh" {
+	wantType := "sh"
+	if w.remote {
+		wantType = "remote"
+	}
+	if wt := daemon.Str(ent, "WorkType"); wt != wantType {
 		sig := "C04:worktype-lost" + suffix
 		if fi, err := os.Stat(filepath.Join(d.UnitDir(k.ID), "status")); err == nil && fi != nil {
 			// how did it get lost? an empty status record (truncate done, write not) is the known mechanism
@@ -474,6 +540,22 @@ func experiment(bin, base string, cp crashPoint, idx int) *outcome {
 	}
 	st := daemon.Num(ent, "State")
 	after["state"] = st
+	if w.remote {
+		// identity of a remote unit = the remote node and (once started) the remote unit it is bound to
+		node, unit, _ := remoteBinding(ent)
+		pnode, punit, pstarted := remoteBinding(preDisk)
+		after["remote"] = fmt.Sprintf("%s/%s", node, unit)
+		if node != "n2" {
+			viol("C04:remote-binding-lost"+suffix, fmt.Sprintf("unit %s is listed after restart with RemoteNode %q (was n2; record before restart: %s/%s)", k.ID, node, pnode, punit))
+
+			return o
+		}
+		if pstarted && unit != punit {
+			viol("C04:remote-binding-lost"+suffix, fmt.Sprintf("unit %s was bound to remote unit %s on n2, after restart it names %q", k.ID, punit, unit))
+
+			return o
+		}
+	}
 	switch o.Class {
 	case "acked-not-started":
 		if st == 0 {
@@ -489,7 +571,7 @@ func experiment(bin, base string, cp crashPoint, idx int) *outcome {
 		if k.ToldState == 2 {
 			checkResults(d, k, viol, &o.Inconcl, suffix)
 		}
-	case "runner-alive":
+	case "runner-alive", "remote-started":
 		// followed to a final state; complete output fetchable
 		final := int64(-1)
 		deadline := time.Now().Add(90 * time.Second)
@@ -635,7 +717,7 @@ func diskOnly(bin, base string) *outcome {
 	k := &o.Know
 	w := findWorkload("finish")
 	w.run(d, k, log)
-	if !k.GotResults {
+	if k.ToldState != 2 {
 		o.Inconcl = append(o.Inconcl, "finish workload did not complete")
 
 		return o
@@ -811,13 +893,25 @@ func c04Main(args []string) {
 			if len(nk) == 2 {
 				fmt.Sscanf(nk[1], "%d", &cp.K)
 			}
-			points = []crashPoint{cp}
+			if findWorkload(cp.Workload) != nil && !strings.Contains(cp.Second, "runner-held") {
+				points = []crashPoint{cp}
+			}
 		}
 	} else {
 		// ---- dry runs: which (role, point, k) does each workload reach?
 		perWorkload := map[string]int{}
+		dry := make([]*outcome, len(workloads))
+		var dwg sync.WaitGroup
+		for wi := range workloads {
+			dwg.Add(1)
+			go func(wi int) {
+				defer dwg.Done()
+				dry[wi] = experiment(*bin, *base, crashPoint{Workload: workloads[wi].name}, 9000+wi)
+			}(wi)
+		}
+		dwg.Wait()
 		for wi, w := range workloads {
-			o := experiment(*bin, *base, crashPoint{Workload: w.name}, 9000+wi)
+			o := dry[wi]
 			if len(o.Inconcl) > 0 || !o.Know.SubmitDone {
 				res.Inconclusive = append(res.Inconclusive, fmt.Sprintf("dry run of %s failed: %v %+v", w.name, o.Inconcl, o.Steps))
 
@@ -911,6 +1005,40 @@ func c04Main(args []string) {
 	}
 	res.Extra["points_selected"] = len(points)
 	// ---- the experiments
+	// the two scripted TLC leads run next to the enumeration
+	var scripted []*outcome
+	var swg sync.WaitGroup
+	var smu sync.Mutex
+	if *only == "" || strings.HasPrefix(*only, "disk-only") {
+		swg.Add(1)
+		go func() {
+			defer swg.Done()
+			o := diskOnly(*bin, *base)
+			smu.Lock()
+			scripted = append(scripted, o)
+			smu.Unlock()
+		}()
+	}
+	if *only == "" || strings.Contains(*only, "runner-held") {
+		swg.Add(1)
+		go func() {
+			defer swg.Done()
+			o := liveRunner(*bin, *base)
+			smu.Lock()
+			scripted = append(scripted, o)
+			smu.Unlock()
+		}()
+	}
+	if *only == "" || strings.HasPrefix(*only, "remote-long") {
+		swg.Add(1)
+		go func() {
+			defer swg.Done()
+			o := remoteExecutorKill(*bin, *base)
+			smu.Lock()
+			scripted = append(scripted, o)
+			smu.Unlock()
+		}()
+	}
 	type job struct {
 		i  int
 		cp crashPoint
@@ -936,12 +1064,8 @@ func c04Main(args []string) {
 	}
 	close(jobs)
 	wg.Wait()
-	if *only == "" || strings.HasPrefix(*only, "disk-only") {
-		outcomes = append(outcomes, diskOnly(*bin, *base))
-	}
-	if *only == "" || strings.Contains(*only, "runner-held") {
-		outcomes = append(outcomes, liveRunner(*bin, *base))
-	}
+	swg.Wait()
+	outcomes = append(outcomes, scripted...)
 	sort.Slice(outcomes, func(a, b int) bool { return outcomes[a].Dir < outcomes[b].Dir })
 	distinct := map[string]bool{}
 	classes := map[string]int{}
@@ -967,6 +1091,56 @@ func c04Main(args []string) {
 			res.Samples = append(res.Samples, o)
 		}
 	}
+	// ---- the file-step events of every crash run, for TLC (all processes of all runs are dead by now):
+	// status-file events with a crash marker per process (StatusFileTrace.tla, crash-aware) and the rewrite stream of
+	// every unit (WorkUnitTrace.tla, crash-aware); the Go acceptor looks at the same streams
+	const npmax = 6
+	var norm []sftrace.Norm
+	var unitEvs []map[string]any
+	nfiles := 0
+	for _, o := range outcomes {
+		if !o.Reached || len(o.Inconcl) > 0 {
+			continue
+		}
+		for _, tp := range []string{filepath.Join(o.Dir, "trace.ndjson"), filepath.Join(o.Dir, "n2d", "trace.ndjson")} {
+			evs := traceEvents(tp)
+			if len(evs) == 0 {
+				continue
+			}
+			unitEvs = append(unitEvs, sftrace.UnitRewrites(evs, true)...)
+			for _, ft := range sftrace.Split(evs, nil) {
+				if ft.NP > npmax {
+					res.note(fmt.Sprintf("%s: %d processes on one status file, not validated", o.Point, ft.NP))
+
+					continue
+				}
+				withCrash := &sftrace.FileTrace{File: ft.File, Events: sftrace.WithCrashes(ft), NP: ft.NP}
+				for _, p := range sftrace.Accept(withCrash, false) {
+					res.violate("C04:status-file-"+strings.TrimPrefix(p.Sig, "C14:"), fmt.Sprintf("[%s] %s: %s", o.Point, filepath.Base(filepath.Dir(ft.File)), p.What),
+						map[string]any{"point": o.Point, "dir": o.Dir})
+				}
+				nfiles++
+				norm = append(norm, sftrace.Norm{Ev: "reset", H: "save", Own: make([]int, npmax)})
+				for _, n := range withCrash.Events {
+					n.Own = make([]int, npmax)
+					n.Cnt = 0
+					norm = append(norm, n)
+				}
+			}
+		}
+	}
+	normFile := filepath.Join(*base, "sf_trace.ndjson")
+	_ = sftrace.WriteNorm(normFile, norm)
+	unitFile := filepath.Join(*base, "unit_trace.ndjson")
+	if f, err := os.Create(unitFile); err == nil {
+		enc := json.NewEncoder(f)
+		for _, e := range unitEvs {
+			_ = enc.Encode(e)
+		}
+		f.Close()
+	}
+	res.Extra["norm_file"], res.Extra["norm_events"], res.Extra["status_files"] = normFile, len(norm), nfiles
+	res.Extra["unit_trace_file"], res.Extra["unit_trace_events"] = unitFile, len(unitEvs)
 	res.Distinct = len(distinct)
 	res.Extra["classes"] = classes
 	res.Extra["not_reached"] = notReached
